@@ -213,5 +213,5 @@ func cutBytes(format string, b []byte) string {
 }
 
 func TestArbitraryBytes(t *testing.T) {
-	vt.Run(t, cBytes, vt.N(48000, 2000000), genBytes, runBytes)
+	vt.Run(t, cBytes, vt.N(36000, 2000000), genBytes, runBytes)
 }
